@@ -560,10 +560,14 @@ class BasePeripheralsImpl:
         if self.cur_segment == 0 and offset == 0x417:
             return self.misc_get_control_keys()
         else:
+            if self.cur_segment:
+                cur_segment = f'{self.cur_segment:04x}'
+            else:
+                cur_segment = 'default_segment'
             raise DeviceError(
                 error_code=Device.Error.BAD_ARG_VALUE,
                 error_msg=(
-                    f'Cannot read memory at: {self.cur_segment:04x}:'
+                    f'Cannot read memory at: {cur_segment}:'
                     f'{offset:04x}'
                 ),
             )
@@ -591,8 +595,14 @@ class BasePeripheralsImpl:
             block = self.terminal.call_with_result(
                 'get_mem_block', offset, length)
             filespec = self._map_filespec(filespec)
-            with open(filespec, 'wb') as f:
-                f.write(block)
+            try:
+                with open(filespec, 'wb') as f:
+                    f.write(block)
+            except OSError as e:
+                raise DeviceError(
+                    error_code=Device.Error.OP_FAILED,
+                    error_msg=f'Cannot write {filespec}: {e.strerror}',
+                )
         else:
             if self.cur_segment:
                 cur_segment = f'{self.cur_segment:04x}'
@@ -608,8 +618,19 @@ class BasePeripheralsImpl:
     def memory_bload(self, filespec, offset):
         if self.cur_segment == 0xb800:
             filespec = self._map_filespec(filespec)
-            with open(filespec, 'rb') as f:
-                block = f.read()
+            try:
+                with open(filespec, 'rb') as f:
+                    block = f.read()
+            except FileNotFoundError:
+                raise DeviceError(
+                    error_code=Device.Error.FILE_NOT_FOUND,
+                    error_msg=f'No such file or directory: {filespec}',
+                )
+            except OSError as e:
+                raise DeviceError(
+                    error_code=Device.Error.OP_FAILED,
+                    error_msg=f'Cannot read {filespec}: {e.strerror}',
+                )
             self.terminal.call('set_mem_block', block, offset)
         else:
             if self.cur_segment:
@@ -695,6 +716,11 @@ class BasePeripheralsImpl:
             raise DeviceError(
                 error_code=Device.Error.FILE_NOT_FOUND,
                 error_msg=f'No such file or directory: {filespec}',
+            )
+        except OSError as e:
+            raise DeviceError(
+                error_code=Device.Error.OP_FAILED,
+                error_msg=f'Cannot delete {filespec}: {e.strerror}',
             )
 
     # misc
